@@ -128,11 +128,7 @@ type worker struct {
 func (w *worker) runPath(fn *ssa.Function, prefix []rec) (outcome string, completed bool, detail string) {
 	cx := w.cx
 	cx.beginPath(prefix)
-	defer func() {
-		if cx.s != nil {
-			cx.s.EndPath()
-		}
-	}()
+	defer cx.endPath()
 	i := newInterpreter(w.prog.Prog, w.prog.Sizes, cx, w.gp)
 	defer func() {
 		r := recover()
@@ -170,7 +166,8 @@ func (w *worker) runPath(fn *ssa.Function, prefix []rec) (outcome string, comple
 	cx.steps = 0
 	call(i, nil, token.NoPos, fn, nil)
 	if cx.concrete == nil && cx.ex.wantValidation() {
-		if m, ok := cx.s.Model(nil, false); ok {
+		if cx.ensureModel() {
+			m := cx.model
 			cx.ex.addValidation(ValidationCase{Harness: cx.ex.res.Harness, Valuation: cx.valuation(m), Observed: renderObserved(cx.observed, m), Choices: cx.choiceString()})
 		}
 	}
@@ -201,13 +198,12 @@ func (w *worker) reportPanic(msg string) {
 		cx.reportViolation("no-panic", "panic", msg, cx.concrete)
 		return
 	}
-	m, ok := cx.s.Model(nil, false)
 	cx.qAssert++
-	if !ok {
+	if !cx.ensureModel() {
 		cx.aUnk++
 		return
 	}
-	cx.reportViolation("no-panic", "panic", msg, m)
+	cx.reportViolation("no-panic", "panic", msg, cx.model)
 }
 
 // Explore runs harness fn over all paths within cfg's bounds.
@@ -408,7 +404,11 @@ func init() {
 			cx := fr.i.cx
 			var ts []*Term
 			for _, n := range args[0].([]value) {
-				ts = append(ts, cx.declare(n.(string), 96))
+				t, ok := cx.varTerm[n.(string)]
+				if !ok || t.w != 96 {
+					cx.abort("engine-error", "DistinctActors: "+n.(string)+" is not a declared actor")
+				}
+				ts = append(ts, t)
 			}
 			zero := cx.f.ConstU(0, 96)
 			for i, a := range ts {
@@ -467,6 +467,7 @@ func init() {
 func runCatching(fr *frame, f value) (panicked value) {
 	cx := fr.i.cx
 	depth := cx.depth
+	nstack := len(cx.stack)
 	defer func() {
 		r := recover()
 		if r == nil {
@@ -481,6 +482,7 @@ func runCatching(fr *frame, f value) (panicked value) {
 			}
 		}
 		cx.depth = depth
+		cx.stack = cx.stack[:nstack]
 		cx.panicStack = ""
 		cx.lastPanic = fmt.Sprint(r)
 		panicked = true
